@@ -12,9 +12,11 @@ answers (`deliver`).
 `run evs` = the state after ANY event sequence `evs` from the empty server; `registered {} evs c` = the tokens of the
 `will c …` events the server accepted (answered `ok`) during `evs`, in order — defined from the events alone.
 
-The model mirrors /repo after the three repairs a1e474f (binary `Close` unregisters before it drains the wills — before
+The model mirrors /repo after the four repairs a1e474f (binary `Close` unregisters before it drains the wills — before
 it, INIT + will + disconnect killed the server), 66bd35e (text wills are executed; a closed text connection drops lock
-results), 5edcdb1 (a proxy with the all-zero id is never looked up in `clients`). The lifetimes that refuted the full
+results), 5edcdb1 (a proxy with the all-zero id is never looked up in `clients`), b4e3914 (the text protocol nested by a
+binary ADMIN command ends like any text connection when the stream ends — before it, wills registered on it never ran
+and its session stayed in `protocolSessions`; `Event.admin`, `Conn.nested` / `Conn.outer`). The lifetimes that refuted the full
 statements on the old code are now `example`s of the repaired behaviour.
 -/
 namespace Slock.C18
@@ -46,26 +48,42 @@ theorem C18_no_will_without_close (evs : List Event) (c : Nat) (x : Conn) (hx : 
 /-- **At the close**: the close event of an open, unblocked connection appends its whole will queue, in queue order, to
 the engine log — in that very step. -/
 theorem C18_wills_run_at_close (evs : List Event) (c : Nat) (k : Cause) (x : Conn) (hx : (run evs).conns[c]? = some x)
-    (ho : x.closed = false) (ha : x.awaiting = 0) :
+    (ho : x.closed = false) (ha : x.awaiting = 0) (hn : x.nested = none) (hu : x.outer = none) :
     (step (run evs) (.close c k)).1.willLog = (run evs).willLog ++ (x.wills.map (·.tok)).map (fun t => (c, t)) := by
   have e1 : (step (run evs) (.close c k)).1 = (doClose (run evs) c x).1 := by
-    unfold step stepClose
-    simp [run_alive evs, hx, ho, ha]
+    unfold step
+    simp only [run_alive evs]
+    rw [stepClose_plain hx hn hu, closeOne_do hx ho ha]
   rw [e1]
   exact doClose_all (good_run' evs) hx
+
+/-- **At the close, ADMIN mode**: when the stream of a binary connection `o` ends whose nested text protocol `n` (started
+by ADMIN) is running and not blocked, the close event appends the nested protocol's whole will queue, in order, and then
+the connection's own — in that very step. (A blocked nested handler defers both to its next write: `Out.deferred`,
+then the `deliver` of its reply does the same through `Dest.lost`.) -/
+theorem C18_admin_wills_run_at_close (evs : List Event) (o n : Nat) (k : Cause) (x y : Conn)
+    (hx : (run evs).conns[o]? = some x) (hxo : x.closed = false) (hxa : x.awaiting = 0) (hxn : x.nested = some n)
+    (hxu : x.outer = none) (hne : n ≠ o) (hy : (run evs).conns[n]? = some y) (hyo : y.closed = false) (hya : y.awaiting = 0) :
+    (step (run evs) (.close o k)).1.willLog =
+      (run evs).willLog ++ (y.wills.map (·.tok)).map (fun t => (n, t)) ++ (x.wills.map (·.tok)).map (fun t => (o, t)) := by
+  have e1 : (step (run evs) (.close o k)).1 = (stepClose (run evs) o).1 := by
+    unfold step; simp only [run_alive evs]
+  rw [e1]
+  exact stepClose_admin_log (gsa_run evs) hx hxo hxa hxn hxu hne hy hyo hya
 
 /-- **Outcome of every will** (binary connection): the close event reports, for EVERY will of the queue in order, what
 happened to it — `reply = none`: submitted to the engine and queued there; `self = false`, `reply = some d`: submitted,
 answered in the call, reply routed to `d`; `self = true`: answered by the protocol itself, never submitted, reply
 routed to `d` (dropped unless a connection re-announced the id — `C18_routing_will_replies`). -/
 theorem C18_will_outcomes (evs : List Event) (c : Nat) (k : Cause) (x : Conn) (hx : (run evs).conns[c]? = some x)
-    (ho : x.closed = false) (ha : x.awaiting = 0) (hk : x.kind = .binary) :
+    (ho : x.closed = false) (ha : x.awaiting = 0) (hk : x.kind = .binary) (hn : x.nested = none) (hu : x.outer = none) :
     (step (run evs) (.close c k)).2 =
       .closed (x.wills.map (willOutcome (closeState (run evs) c x) c)) none := by
   have hg := good_run' evs
   have e1 : (step (run evs) (.close c k)).2 = .closed (doClose (run evs) c x).2.1 (doClose (run evs) c x).2.2 := by
-    unfold step stepClose
-    simp [run_alive evs, hx, ho, ha]
+    unfold step
+    simp only [run_alive evs]
+    rw [stepClose_plain hx hn hu, closeOne_do hx ho ha]
   rw [e1, doClose_outcomes hg hx hk, doClose_alive hg hx]
 
 /-- `close (close c) = close c`: a second close event (any cause) changes nothing — no will runs twice. -/
@@ -101,15 +119,16 @@ theorem C18_routing_anonymous_dropped (evs : List Event) (tok o : Nat) (x : Conn
   · rw [hc] at h; cases h
   · rw [ha] at h; cases h
 
-/-- **Routing of the wills' own replies**: if the close of connection `c` reports that the immediate reply of one of its
-wills was written to connection `d`, then `c` had announced an id, `d` is the connection registered under that id at
-that moment, `d ≠ c`, and `d` is open. -/
-theorem C18_routing_will_replies (evs : List Event) (c : Nat) (k : Cause) (res : List WillRes)
+/-- **Routing of the wills' own replies**: if the `Close()` of record `c` (`closeOne`: what a close event does to a plain
+connection, and to each of the two records of a connection in ADMIN mode) reports that the reply of one of its wills
+was written to connection `d`, then `c` had announced an id, `d` is the connection registered under that id at that
+moment, `d ≠ c`, and `d` is open. (A nested text protocol never has an id: all replies of its wills are dropped.) -/
+theorem C18_routing_will_replies (evs : List Event) (c : Nat) (res : List WillRes)
     (f : Option Fatal) (r : WillRes) (d : Nat)
-    (h : (step (run evs) (.close c k)).2 = .closed res f) (hm : r ∈ res) (hrd : r.reply = some (Dest.to d)) :
+    (h : (closeOne (run evs) c).2 = .closed res f) (hm : r ∈ res) (hrd : r.reply = some (Dest.to d)) :
     ∃ x, (run evs).conns[c]? = some x ∧ x.inited = true ∧ aget (run evs).clients x.cid = some d ∧ d ≠ c ∧
       ∃ y, (run evs).conns[d]? = some y ∧ y.closed = false :=
-  close_reply_to (good_run' evs) c k res f r d h hm hrd
+  close_reply_to (good_run' evs) c res f r d h hm hrd
 
 /-- REMARK (not a violation of the property as worded — the receiver did announce the id): "announced" in `C18_routing`
 is "at some point". Connection 1 adopted the proxy of closed connection 0 under id 5, then re-announced id 6;
@@ -123,17 +142,17 @@ theorem C18_routing_follows_adoption :
 
 /-! ## holds survive, nothing leaks -/
 
-/-- **Close touches the engine only by submitting wills**: the engine log after a close event is the log before plus
-will tokens of the closing connection, in queue order, and the issuer the engine remembers for every other pending
+/-- **Close touches the engine only by executing wills**: the will log after a close event is the log before plus
+executed wills (of the closing connection, and of its nested text protocol in ADMIN mode — which ones and in which order:
+`C18_wills_run_at_close`, `C18_admin_wills_run_at_close`), and the issuer the engine remembers for every other pending
 token (queued request or hold) is unchanged: those stay exactly as valid as they were. -/
 theorem C18_holds_survive (s : Server) (c : Nat) (k : Cause) :
-    ∃ toks, (step s (.close c k)).1.willLog = s.willLog ++ toks.map (fun t => (c, t)) ∧
-      (∀ x, s.conns[c]? = some x → ∃ rest, x.wills.map (·.tok) = toks ++ rest) ∧
-      (∀ tok, tok ∉ toks → aget (step s (.close c k)).1.owner tok = aget s.owner tok) := by
+    ∃ subs : List (Nat × Nat), (step s (.close c k)).1.willLog = s.willLog ++ subs ∧
+      (∀ tok, tok ∉ subs.map (·.2) → aget (step s (.close c k)).1.owner tok = aget s.owner tok) := by
   cases hd : s.dead with
   | some f =>
     rw [step_dead _ f hd]
-    exact ⟨[], by simp, fun x _ => ⟨_, rfl⟩, fun _ _ => rfl⟩
+    exact ⟨[], by simp, fun _ _ => rfl⟩
   | none =>
     have e1 : (step s (.close c k)).1 = (stepClose s c).1 := by unfold step; simp [hd]
     rw [e1]
@@ -176,6 +195,21 @@ example : (runOut {} selfMid).getLast? =
 example : (runOut {} [.open .binary, .init 0 7, .will 0 1 true false, .will 0 2 false true, .will 0 3 false false,
                       .open .binary, .init 1 7, .close 0 .server]).getLast? =
     some (.closed [⟨1, false, some (.to 1)⟩, ⟨2, true, some (.to 1)⟩, ⟨3, false, none⟩] none) := by decide
+
+/-- ADMIN: a will on the binary connection, ADMIN, two wills on the nested text protocol (record 1), the stream ends:
+the nested protocol's wills run first, then the connection's own; before b4e3914 tokens 2 and 3 were never executed -/
+def adminLife : List Event :=
+  [.open .binary, .will 0 1 true false, .admin 0, .will 1 2 true false, .will 1 3 false false, .request 1 7, .deliver 7,
+   .close 1 .client]
+
+example : execOf (run adminLife) 1 = [2, 3] ∧ execOf (run adminLife) 0 = [1] ∧
+    registered {} adminLife 1 = [2, 3] ∧ registered {} adminLife 0 = [1] := by decide
+example : (runOut {} adminLife).getLast? =
+    some (.closed [⟨2, false, some .dropped⟩, ⟨3, false, none⟩, ⟨1, false, some .dropped⟩] none) := by decide
+example : ((run adminLife).conns.map (·.closed)) = [true, true] := by decide
+/-- the nested handler is blocked when the peer goes: everything waits for its reply, which is lost and ends both -/
+example : (runOut {} [.open .binary, .admin 0, .will 1 2 true false, .request 1 7, .close 0 .server, .deliver 7]).drop 4 =
+    [.deferred, .routedClosed (.lost 1) [⟨2, false, some .dropped⟩] none] := by decide
 
 /-- was the crash: INIT + two wills + disconnect — both run, their replies are dropped, the server lives -/
 example : (runOut {} [.open .binary, .init 0 7, .will 0 1 true false, .will 0 2 true false, .close 0 .client]).getLast? =
